@@ -86,7 +86,10 @@ def drive(sc):
     # reported in the user domain must still be x + magnitude x sample, post-processed at the USER's bounds
     transforms = make_transforms(var_scales=[2.0, 0.5, 4.0], var_offsets=[0.25, -0.5, 1.0])
     # (this second configuration also carries an explicit variable mask that frees every variable)
-    config2 = EnOptConfig.model_validate(dict(cfg, gradient=gradient_section(), variables=dict(cfg["variables"], mask=[True, True, True])),
+    # (... and a sampler entry that no variable refers to BETWEEN the two that are in use: the indices in use are 0 and 2)
+    config2 = EnOptConfig.model_validate(dict(cfg, gradient=dict(gradient_section(), samplers=[0, 2, 0]),
+                                              samplers=[cfg["samplers"][0], {"method": "rvdesign/design", "shared": True}, cfg["samplers"][1]],
+                                              variables=dict(cfg["variables"], mask=[True, True, True])),
                                          context=transforms)
     rows.clear()
     ee2 = EnsembleEvaluator(config2, transforms, evaluator, manager())
